@@ -621,7 +621,8 @@ var edgeChoices = []int{0, 10, 30, 60, 100}
 func c13GenScenario(r *rng, srcs []*moduleSource) *C13Scenario {
 	sc := &C13Scenario{}
 	src := srcs[r.intn(len(srcs))]
-	if r.chance(1, 8) {
+	stressed := false
+	if r.chance(1, 5) {
 		// Stress modules (hundreds of distinct identifiers / constants / functions:
 		// whatever is cached or hashed per distinct value meets growth, collisions
 		// and eviction there) get an eighth of the runs.
@@ -633,6 +634,7 @@ func c13GenScenario(r *rng, srcs []*moduleSource) *C13Scenario {
 		}
 		if len(stress) > 0 {
 			src = stress[r.intn(len(stress))]
+			stressed = true
 		}
 	}
 	sc.Module = src.Name
@@ -737,7 +739,24 @@ func c13GenScenario(r *rng, srcs []*moduleSource) *C13Scenario {
 		// until the other printers are done (same receiver: the module).
 		sc.Tasks[0] = []Call{{K: 18, A: r.intn(2), B: r.intn(400)}}
 	}
-	sc.Tape = genTape(r, TapeParams{NSched: 2048, MeanGap: gapChoices[r.intn(len(gapChoices))], EdgePct: edgeChoices[r.intn(len(edgeChoices))], EarlyPct: 50, NPool: 512})
+	if stressed && sc.Start == "printed" && r.chance(1, 2) {
+		// ... and, once printed, each printer at functions of its own (what is keyed
+		// by identifier is then asked for different identifiers at the same time).
+		for i := range sc.Tasks {
+			sc.Tasks[i] = nil
+			for j, n := 0, 2+r.intn(4); j < n; j++ {
+				sc.Tasks[i] = append(sc.Tasks[i], Call{K: 2, A: r.intn(1 << 12)})
+			}
+		}
+	}
+	meanGap := gapChoices[r.intn(len(gapChoices))]
+	if stressed && r.chance(1, 2) {
+		// On a module with hundreds of entities the printers should also be far
+		// apart from each other (one at function 10 while another is at function
+		// 300): long stretches between switches.
+		meanGap = []int{5000, 20000, 80000}[r.intn(3)]
+	}
+	sc.Tape = genTape(r, TapeParams{NSched: 2048, MeanGap: meanGap, EdgePct: edgeChoices[r.intn(len(edgeChoices))], EarlyPct: 50, NPool: 512})
 	// The step cap only has to catch a livelock; it grows with the amount of
 	// printing the run does (a crowd repeating its calls on a 60 KB module needs
 	// well over 20 M statements).
